@@ -203,6 +203,36 @@ def plan_c05(run, tmp):
     return V.finish(run, "model_checking", "class definitions varied by the TLA+ reference encoder (permuted, with fields dropped, with an unknown field at any position carrying any kind of value, at definition index 0..40, short and long instance form); the real decoder's result is compared by TLC with the value whose dropped fields are zero")
 
 
+def plan_c14(run, tmp):
+    known = V.load_known()
+    hx = V.build_harness(tmp)
+    th = run.tier == "thorough"
+    cdir = V.os.path.join(tmp, "corpus")
+    V.run_hx(hx, ["hostilecorpus", "-seed", str(run.seed), "-out", cdir])
+    d = V.spec_dir(tmp, "gen_mut")
+    vp = V.os.path.join(d, "valid.ndjson")
+    V.os.symlink(V.os.path.join(cdir, "valid.ndjson"), vp)
+    vec = V.os.path.join(tmp, "mutants.ndjson")
+    cfg = "SPECIFICATION Spec\nCONSTANTS Stride = %d\nINVARIANTS Emit CorpusOK\nCHECK_DEADLOCK FALSE\n" % (1 if th else 3)
+    r = V.tlc_vectors(tmp, "MutGen", "mut", cfg, vec, workers=8, timeout=2400)
+    run.add_mc("MutGen", r, "every valid corpus message x every (strided) offset x mutation catalogue; each mutant classified by the reference decoder (well-formed / first error offset)")
+    out = V.os.path.join(tmp, "tr_hostile")
+    hxargs = ["hostile", "-vectors", vec]
+    V.run_hx(hx, hxargs + ["-seed", str(run.seed), "-tier", run.tier, "-out", out, "-shards", str(V.NCPU)], timeout=7200)
+    shards = V.shard_files(out)
+    v = V.validate_shards(tmp, "TraceCodec", shards, "hostile")
+    summary = V.json.load(open(V.os.path.join(out, "summary.json")))
+    summary["mutants_from_tlc"] = r["vectors"]
+    gen_bad = [x for x in v["rejs"] if x[1].startswith("gen.")]
+    if gen_bad:
+        raise V.Infra("mutant classification changed between TLC and the harness: %s" % gen_bad[:5])
+    run.add_validation("hostile", v, summary)
+    V.judge(run, known, v["rejs"], shards, dict(hx=hxargs, seed=run.seed, tier=run.tier, module="TraceCodec"))
+    run.assumptions += ["no-panic / bounded time and memory are run-time monitors (isolated worker, RLIMIT_AS 6 GiB, 10 s watchdog, TotalAlloc delta); the specification contributes the structure-aware mutants and their classification",
+                        "flat bounds (256 MiB, 10 s for inputs <= 64 KiB) cannot be exceeded by an implementation linear in its input"]
+    return V.finish(run, "exploration", "structure-aware mutants generated and classified by TLC (MutGen over the reference decoder), prefixes and random strings; every decode entry point in an isolated worker; verdict by monitors recorded in the trace and evaluated by TLC")
+
+
 def plan_pool(run, tmp):
     known = V.load_known()
     hx = V.build_harness(tmp)
@@ -305,6 +335,7 @@ PLANS = {
     "C15": plan_codec("c15", fault_mc, "fault enumeration: for each value and writer-taking entry point every Write index k x 4 fault kinds is executed against the real encoder; each run's writer log is replayed by TLC through HFault (FaultSurfaces)", module="TraceFault", level="fault_enumeration", selftest=False),
     "C17": plan_pool,
     "C03": plan_c03,
+    "C14": plan_c14,
     "C05": plan_c05,
     "C13": plan_codec("c13", None, "encode calls on values containing an unsupported kind at every position: TLC requires an error (no panic, no success), and well-formed output for the control values"),
     "C10": plan_codec("c10", scalar_mc, "timestamp round trips validated by TLC at millisecond resolution"),
